@@ -149,8 +149,12 @@ CutChat(c, d) ==
     /\ n' = n + 1
     /\ UNCHANGED <<live, lsn>> /\ Done("CutChat") /\ Log4("CutChat", c, d, Num(n))
 
+(* many strangers at the same moment: connections that are not among Clients present first messages that are refused, all
+   at once; each gets its error and nothing else, nothing changes for anybody, the teamserver keeps running *)
+Strangers == /\ UNCHANGED <<phase, recv, events, live, lsn, n>> /\ Done("Strangers") /\ Log("Strangers", "", "")
 Next == /\ Len(hist) < MaxOps
         /\ \/ \E c \in Clients : Connect(c) \/ FollowUp(c) \/ Chat(c) \/ Close(c) \/ AuthRace(c)
+           \/ Strangers
            \/ \E c \in Clients, k \in Kinds : Auth(c, k)
            \/ \E a \in Agents : Beacon(a) \/ Register(a)
            \/ \E l \in Lst : AddLsn(l)
